@@ -275,6 +275,10 @@ Fixpoint split_subs (tr : list (nat * nat)) (cur : list (nat * nat)) : list (lis
               else split_subs r (p :: cur)
   end.
 
+(* the limit tests made by searches: the segments whose first test is (solution size 0, iteration 0) *)
+Definition search_tests (tr : list (nat * nat)) : list (nat * nat) :=
+  flat_map (fun seg => match seg with (0, 0) :: _ => seg | _ => [] end) (split_subs tr []).
+
 Fixpoint consecutive_from (i : nat) (tr : list (nat * nat)) : bool :=
   match tr with [] => true | p :: r => Nat.eqb (snd p) i && consecutive_from (S i) r end.
 
@@ -345,6 +349,11 @@ Definition check_entry (vertex_result : bool) (maxdeg : nat) (unl : obs) (e : en
       | [] => Some "terminated without a test"
       | _ =>
           if negb (fires_at lastp) then Some "terminated although no limit is exceeded"
+          (* limits stop SEARCHES: a query all of whose searches stay within the limits is answered.  A search's
+             first limit test sees an empty tree at iteration 0, so the tests of the unlimited run that belong to
+             searches are the segments that start with (0, 0) *)
+          else if negb (existsb fires_at (search_tests (ob_trace unl)))
+          then Some "terminated although every search of the unlimited run stays within the limits"
           else if String.eqb (ob_msg o) (join ", " (map TM.leaf_msg (TM.fired t ck (fst lastp) (snd lastp)))) then None
           else Some "explanation does not name the limits that fired"
       end
